@@ -31,3 +31,5 @@ func verifIfaceEq(a, b interface{}) bool
 func verifCmpU64(a, b uint64) int
 func verifIteB(c bool, a, b bool) bool
 func verifStrSame(a, b string) bool
+func verifNondetKey(name string) uint64
+func verifNondetVal(name string) uint64
